@@ -13,6 +13,10 @@ CHECKS = {
    text="Explicit-state breadth-first search over event histories of the real router: (1) one real forwarder fed crafted TSB/GBC/GAC/GUC/LS packets (fresh, duplicate, replay; sequence numbers incl. wrap; DPL lengths 1-3; hop limits 0,1,2,3,255 and the full 0..255 grid) in lock-step with a reference duplicate-window/forwarding model, every forwarded frame compared octet for octet; (2) the complete reachable state graph of three real routers in line and mesh under SIMPLE and CBF forwarding with every delivery order and every CBF-timer expiry order, checked for at-most-once delivery/transmission, strictly decreasing hop limit, duplicate cancelling the buffered copy, acyclicity and quiet terminal states (termination of the flood). The graphs of part 2 close, so the result covers every interleaving of those worlds, which no unit test with mocks reaches.",
    note="Trusted: CPython, deepcopy snapshots (cross-checked by replaying histories on fresh objects), RefForwarder model and mc/ref/gn_codec.py. Bounded to <=2 originated packets, 3 stations, depth 5 (7 thorough) for the single-forwarder histories.",
    technique="explicit-state BFS over real objects with reference model in lock-step; complete reachable state graph + cycle detection"),
+ "C02": dict(level="exploration", design="3/C02",
+   text="Complete enumeration of a declared finite lattice of wire values against an independent struct-level codec: every value of every header field up to 16 bits (with neighbouring fields all-zero and all-one), the bit-pattern classes of the 32/48-bit fields (two's-complement boundaries, walking ones/zeros), all 32 station types, and octet-for-octet comparison of every packet the real router/BTP router originates (beacon, SHB, GBC/GAC x shapes, GUC, LS request/reply; BTP-A/B; both mobility settings; traffic classes; MIB defaults; ego positions in all four hemispheres; sequence numbers incl. wrap) with the reference assembly. Unit tests pin a handful of byte strings at one positive coordinate; this covers every field value class.",
+   note="Trusted: CPython, mc/ref/gn_codec.py (written from EN 302 636-4-1 clause 9 / 302 636-5-1 clause 7). Interiors of 32/48-bit fields only by pattern classes. Sequence-number successor follows clause 8.3 (mod 2^16-1).",
+   technique="exhaustive finite-domain enumeration of the real codecs and emitted packets against a reference codec"),
 }
 
 NOT_APPLICABLE = {}
